@@ -48,11 +48,29 @@ func (tx *Tx) check(cfg checkConfig, ch chan error) {
 	freed := make(map[common.Pgid]bool)
 	all := make([]common.Pgid, tx.db.freelist.Count())
 	tx.db.freelist.Copyall(all)
+	reported := make(map[common.Pgid]bool)
 	for _, id := range all {
 		if freed[id] {
 			ch <- fmt.Errorf("page %d: already freed", id)
+			reported[id] = true
 		}
 		freed[id] = true
+	}
+
+	// The in-memory free list does not necessarily keep an id that is listed
+	// twice on the freelist page (the hashmap backend indexes free spans by
+	// their first id), so check the persisted list as well.
+	if tx.meta.Freelist() != common.PgidNoFreelist {
+		if p := tx.page(tx.meta.Freelist()); p.IsFreelistPage() {
+			listed := make(map[common.Pgid]bool)
+			for _, id := range p.FreelistPageIds() {
+				if listed[id] && !reported[id] {
+					ch <- fmt.Errorf("page %d: already freed", id)
+					reported[id] = true
+				}
+				listed[id] = true
+			}
+		}
 	}
 
 	// Track every reachable page.
